@@ -1358,6 +1358,21 @@ fn fea_cases(tier: Tier, base: &Arc<Base>, out: &mut Vec<Case>) {
     inc("include-self", "features.fea", vec![f("features.fea", "include(features.fea);\n")], "features.fea includes itself");
     inc("include-cycle", "two-files", vec![f("features.fea", "include(x.fea);\n"), f("x.fea", "include(features.fea);\n")], "features.fea -> x.fea -> features.fea");
     inc("include-cycle", "three-files", vec![f("features.fea", "include(x.fea);\n"), f("x.fea", "include(y.fea);\n"), f("y.fea", "include(x.fea);\n")], "features.fea -> x.fea -> y.fea -> x.fea");
+    // every include digraph on features.fea + x.fea + y.fea (each file includes any subset of the three, itself
+    // included): 512 graphs; the hand-listed cycles above are three of them
+    for mask in 0u32..512 {
+        let names = ["features.fea", "x.fea", "y.fea"];
+        let body = |i: usize| -> String {
+            (0..3).filter(|j| mask & (1 << (3 * i + j)) != 0).map(|j| format!("include({});\n", names[j])).collect::<String>() + "# end\n"
+        };
+        let edges: Vec<String> = (0..3).map(|i| format!("{}>{{{}}}", i, (0..3).filter(|j| mask & (1 << (3 * i + j)) != 0).map(|j| j.to_string()).collect::<Vec<_>>().join(","))).collect();
+        inc(
+            "include-graph",
+            &edges.join(";"),
+            vec![f("features.fea", &body(0)), f("x.fea", &body(1)), f("y.fea", &body(2))],
+            "every include digraph on three files",
+        );
+    }
     inc("include-missing", "no-such-file", vec![f("features.fea", "include(nope.fea);\n")], "included file does not exist");
     inc("include-missing", "directory", vec![f("features.fea", "include(glyphs);\n")], "included path is a directory");
     inc("include-missing", "empty-path", vec![f("features.fea", "include();\n")], "include()");
